@@ -4,7 +4,7 @@
    summands over the layers the returned depth is the model's depth_at — the documented integral
    (Rp^2 + 2 sum_l (Rp + z_l)(1 - exp(-tau_l)) dz_l) / Rs^2 — for all real arguments and any number of layers. *)
 From Coq Require Import Reals Lra List Lia.
-From TV Require Import Num ListNum Model_C01.
+From TV Require Import Num ListNum ListNumR Model_C01 Proofs_C01.
 Import ListNotations.
 Local Open Scope R_scope.
 (* GENERATED *)
@@ -24,4 +24,30 @@ Proof.
   intros Rp Rs z dz ts tr w t0 z0 d0 H. unfold depth_at, gen_depth. cbn [fst]. rnum.
   f_equal. f_equal. f_equal. apply map_ext_in. intros l Hl. apply in_seq in Hl.
   rewrite H by lia. unfold gen_depth_summand1. rnum. reflexivity.
+Qed.
+
+
+(* Consequently the value the code returns lies between the bare-planet depth and the depth of an atmosphere opaque to
+   its top, whatever the (non-negative) optical depths and the number of layers: C01_depth_bounds carried over to the
+   regenerated source. *)
+Lemma tie_code_depth_bounds : forall (Rp Rs : R) (z dz : list R) (ts tr : list (list R)) (w : nat) (t0 z0 d0 : R),
+  0 < Rs -> 0 <= Rp -> nonneg_list z -> nonneg_list dz ->
+  (forall l, (l < length z)%nat -> nth_d (nth l tr []) w = exp (- nth_d (nth l ts []) w)) ->
+  (forall l, (l < length z)%nat -> 0 <= nth_d (nth l ts []) w) ->
+  (Rp / Rs) ^ 2
+  <= fst (gen_depth
+         (nsum (map (fun l => gen_depth_summand1 (nth_d (nth l ts []) w) (nth_d z l) Rp Rs (nth_d dz l))
+                    (seq 0 (length z))))
+         t0 z0 Rp Rs d0)
+  <= (Rp * Rp + Rsum (map (fun l => (Rp + nth_d z l) * nth_d dz l * 2) (seq 0 (length z)))) / (Rs * Rs).
+Proof.
+  intros Rp Rs z dz ts tr w t0 z0 d0 HRs HRp Hz Hdz H Hpos.
+  rewrite <- (tie_depth Rp Rs z dz ts tr w t0 z0 d0 H).
+  apply depth_bounds; try assumption.
+  intros l Hl. rewrite (H l Hl). unfold unit_interval. split.
+  - left. apply exp_pos.
+  - rewrite <- exp_0. specialize (Hpos l Hl).
+    destruct (Req_dec (nth_d (nth l ts []) w) 0) as [E|E].
+    + rewrite E, Ropp_0. lra.
+    + left. apply exp_increasing. lra.
 Qed.
